@@ -13,7 +13,8 @@ def rule : Rule :=
     stopReject := [1, 2],
     initLast := 4,
     sceneReject := [1],
-    dynMonitored := false }
+    dynMonitored := false,
+    impliesEval := false }
 
 /-- propositions.py: Scenic proposition class -> (rv_ltl constructor, positions of the operands passed) -/
 def ctorMap : List (String × String × List Nat) :=
@@ -25,6 +26,9 @@ def ctorMap : List (String × String × List Nat) :=
    ("Or", "Or", []),
    ("Until", "Until", [0, 1]),
    ("Implies", "Implies", [0, 1])]
+
+/-- propositions.py: classes that set `is_temporal` -/
+def temporalClasses : List String := ["Always", "Eventually", "Next", "Until"]
 
 /-- rv_ltl/monitor.py: sugar monitors as (class, expansion) -/
 def sugar : List (String × String) :=
